@@ -341,7 +341,11 @@ func (f *frame) applyContract(ct *Contract, fn *ssa.Function, sig *types.Signatu
 	bindFV(env, pre)
 	for _, cl := range ct.Requires {
 		c := env.trBool(cl.Expr)
-		f.oblige("pre", display+"."+cl.Label, nil, c, pos)
+		var ps []string
+		if cl.ExplicitProps {
+			ps = cl.Props
+		}
+		f.oblige("pre", display+"."+cl.Label, ps, c, pos)
 	}
 	// frame
 	eff := eng.contractEffects(ct, fn, sig)
